@@ -10,7 +10,7 @@ import subprocess
 import sys
 import time
 
-VERIF = "/verif"
+VERIF = os.path.dirname(os.path.dirname(os.path.abspath(__file__)))     # /verif, or a snapshot of it (vp run)
 SPEC = f"{VERIF}/spec"
 HARNESS = f"{VERIF}/harness"
 JAR = "/opt/veriftools/tla/tla2tools.jar"
